@@ -7,7 +7,9 @@ HARNESS = os.path.join(ROOT, "harness")
 OUT = os.path.join(ROOT, "out")
 EVID = os.path.join(ROOT, "evidence")
 KNOWN = os.path.join(ROOT, "known_findings.json")
-REPO = "/repo"
+# The registered checks always run against /repo. VERIF_REPO points the same machinery at a scratch copy
+# (used only to try seeded breaking changes without disturbing /repo).
+REPO = os.environ.get("VERIF_REPO", "/repo")
 DEFAULT_SEED = 20260927
 
 
@@ -34,7 +36,15 @@ def build_harness(profile="dev"):
     """cargo build the harness against /repo's current working tree."""
     if profile in _built:
         return _built[profile]
-    lock = os.path.join(HARNESS, "Cargo.lock")
+    hdir = HARNESS
+    if REPO != "/repo":
+        # scratch copy of the harness whose path dependencies point at the alternative tree
+        hdir = os.path.join(OUT, "harness_alt_" + hashlib.md5(REPO.encode()).hexdigest()[:8])
+        os.makedirs(hdir, exist_ok=True)
+        sh(["rsync", "-a", "--delete", "--exclude", "target", HARNESS + "/", hdir + "/"])
+        ct = open(os.path.join(hdir, "Cargo.toml")).read().replace('"/repo', '"' + REPO)
+        open(os.path.join(hdir, "Cargo.toml"), "w").write(ct)
+    lock = os.path.join(hdir, "Cargo.lock")
     if not os.path.exists(lock):
         shutil.copy(os.path.join(REPO, "Cargo.lock"), lock)
     cmd = ["cargo", "build", "--offline", "-q"] + (["--release"] if profile == "release" else [])
@@ -42,13 +52,13 @@ def build_harness(profile="dev"):
     env = {"CARGO_NET_OFFLINE": "true"}
     # serialise concurrent builds (several vcheck processes may run at once)
     import fcntl
-    with open(os.path.join(HARNESS, ".build.lock"), "w") as lk:
+    with open(os.path.join(hdir, ".build.lock"), "w") as lk:
         fcntl.flock(lk, fcntl.LOCK_EX)
-        r = sh(cmd, cwd=HARNESS, env=env, timeout=1800)
+        r = sh(cmd, cwd=hdir, env=env, timeout=1800)
     if r.returncode != 0:
         # a tree that does not compile is a tool error, not a verdict
         raise ToolError("harness build failed:\n" + r.stdout[-4000:])
-    binp = os.path.join(HARNESS, "target", "release" if profile == "release" else "debug", "tvh")
+    binp = os.path.join(hdir, "target", "release" if profile == "release" else "debug", "tvh")
     log(f"[build] harness ({profile}) {time.time()-t0:.1f}s")
     _built[profile] = binp
     return binp
